@@ -542,9 +542,18 @@ def align_variable_names_with_convention(
     # A name that is bound in several ways (e.g. by a def and by an assignment) is still one
     # variable: if its bindings call for different new names, it keeps the name it has.
     name_substitutes = collections.defaultdict(set)
+    module_level_nodes = {
+        *parsing.iter_classdefs(ast_tree),
+        *parsing.iter_funcdefs(ast_tree),
+        *parsing.iter_assignments(ast_tree),
+    }
     for node, substitutes in renamings.items():
         name = getattr(node, "id", getattr(node, "name", None))
-        name_substitutes[name].update(substitutes - {name})
+        if node in module_level_nodes:
+            # Keeping the name it has is a choice as well
+            name_substitutes[name].update(substitutes)
+        else:
+            name_substitutes[name].update(substitutes - {name})
     renamings = {
         node: list(substitutes)[0]
         for node, substitutes in renamings.items()
